@@ -55,10 +55,15 @@ Vector3 RotMatToVec(const Matrix3& m) {
 	}
 	if (cosang > -1) {
 		Vector3 v(m[1][2] - m[2][1], m[2][0] - m[0][2], m[0][1] - m[1][0]);
-		v.Normalize();
-		return v * static_cast<float>(std::acos(cosang));
+		// v is 2*sinang*axis. If it vanishes here (cosang <= 0.5), sinang is 0 and
+		// the rotation is a half turn whose trace was rounded to just above -1:
+		// normalizing v would return the zero vector, so use the half-turn case below.
+		if (!v.IsZero()) {
+			v.Normalize();
+			return v * static_cast<float>(std::acos(cosang));
+		}
 	}
-	// cosang <= -1, sinang == 0
+	// cosang <= -1 or no skew-symmetric part: sinang == 0, half turn
 	double x = (m[0][0] - cosang) * 0.5;
 	double y = (m[1][1] - cosang) * 0.5;
 	double z = (m[2][2] - cosang) * 0.5;
@@ -107,6 +112,10 @@ Matrix3 CalcAverageRotation(const std::vector<Matrix3>& rots) {
 	Vector3 sum2;
 	for (const Matrix3& r : rots)
 		sum2 += RotMatToVec(baseinv * r);
+
+	sum2.x /= n;
+	sum2.y /= n;
+	sum2.z /= n;
 
 	// The result is the new average offset from the base.
 	return base * RotVecToMat(sum2);
